@@ -196,7 +196,7 @@ fn run_row(case: &Value, w: &World) -> Vec<(String, Value, Value)> {
   let accept = b(&case["out"]["accept"]);
   match (r, accept) {
     (Err(_), false) => {}
-    (Err(e), true) => diffs.push(("rejected_although_all_hold".into(), json!("accepted"), json!(e.to_string()))),
+    (Err(e), true) => diffs.push(("~rejected_although_all_hold".into(), json!("accepted"), json!(e.to_string()))),
     (Ok(_), false) => diffs.push(("accepted_with_false_condition".into(), json!("rejected"), json!("accepted"))),
     (Ok(d), true) => {
       // what is handed back is what was signed
